@@ -25,6 +25,8 @@ def widths(rng, n, family, maxratio=50.0):
     elif family == 'symmetric':
         h = np.exp(rng.uniform(0, math.log(min(maxratio, 8.0)), (n + 1) // 2))
         w = np.concatenate([h, h[:n // 2][::-1]])
+    elif family == 'jitter':       # almost uniform: relative irregularity 1e-7 .. 1e-5
+        w = 1.0 + 10 ** rng.uniform(-7, -5) * rng.uniform(-1, 1, n)
     elif family == 'smooth':
         xi = np.linspace(0, 1, n + 1)
         kap = rng.uniform(-0.12, 0.12)
@@ -70,11 +72,25 @@ def axis_faces(rng, kind, n, family, opts=None):
     else:
         raise KeyError(kind)
     f = x0 + L * np.concatenate([[0.0], np.cumsum(w)])
+    if kind in ('len', 'rad') and opts.get('lscale'):
+        f = f * float(opts['lscale'])          # same shape in another length unit (nanometres ... megametres)
     if kind in ('pol',) and abs(f[-1] - math.pi) < 1e-12:
         f[-1] = math.pi
     if kind == 'ang' and abs(f[-1] - 2 * math.pi) < 1e-12:
         f[-1] = 2 * math.pi
     return f
+
+
+def geo_opts(rng, geo):
+    """(family override, opts) of the special geometries: 'nano'/'mega' = ordinary shapes in tiny/huge length units,
+    'jitter' = almost-uniform spacing"""
+    if geo == 'nano':
+        return None, {'lscale': float(10 ** rng.uniform(-10, -8))}
+    if geo == 'mega':
+        return None, {'lscale': float(10 ** rng.uniform(4, 8))}
+    if geo == 'jitter':
+        return 'jitter', {}
+    return None, {}
 
 
 def gen_grid(rng, cls, nmin=1, nmax=5, family=None, n=None, opts=None):
